@@ -258,6 +258,14 @@ func (c *sconn) WriteBatch(msgs conn.Messages, flags int) (int, error) {
 	}
 	o.mu.Lock()
 	w := max(written, 0)
+	if len(msgs) >= 2 {
+		o.counts["write/batch>=2"]++
+	}
+	if w+1 < len(msgs) {
+		o.counts["write/partial-with-leftover"]++
+	} else if w < len(msgs) {
+		o.counts["write/partial-last-dropped"]++
+	}
 	for i := 0; i < w; i++ {
 		c.checkWritten(msgs[i].Buffers[0])
 		o.ev("done", c.idx, ids[i])
@@ -407,7 +415,9 @@ type scenario struct {
 	forwarded, scmpReplies int
 }
 
-func runScenario(e *vlib.Env, idx int, r *vlib.Rand) {
+// runScenario returns false when the pipeline wedged (goroutines abandoned) or a violation was
+// recorded: the caller then stops (a broken pipeline would cost a full timeout per scenario).
+func runScenario(e *vlib.Env, idx int, r *vlib.Rand) bool {
 	o := &observer{e: e, ready: make(chan struct{}), ids: map[uintptr]int{}, st: map[int]holder{},
 		tags: map[uint64]int{}, inj: map[uint64]bool{}, counts: map[string]int{}}
 	op := &opener{o: o}
@@ -459,6 +469,8 @@ func runScenario(e *vlib.Env, idx int, r *vlib.Rand) {
 	}
 
 	// write policies
+	congested := r.Chance(60)
+	rep["congested_writes"] = congested
 	for _, c := range conns {
 		n := r.Range(20, 200)
 		for k := 0; k < n; k++ {
@@ -473,6 +485,8 @@ func runScenario(e *vlib.Env, idx int, r *vlib.Rand) {
 			}
 			if r.Chance(15) {
 				p.sleep = time.Duration(r.Range(100, 3000)) * time.Microsecond
+			} else if congested && r.Chance(70) {
+				p.sleep = time.Duration(r.Range(100, 900)) * time.Microsecond
 			}
 			c.wpols = append(c.wpols, p)
 		}
@@ -594,11 +608,31 @@ func runScenario(e *vlib.Env, idx int, r *vlib.Rand) {
 		}
 		fail(key, what)
 	}
+	nv := len(e.Violations)
 	confirm(false)
 	o.counts["audit"]++
-	// shutdown
-	dp.Shutdown()
-	if !bfdOn {
+	// shutdown (with a watchdog: receivers starved of buffers never see the stop)
+	sd := make(chan struct{})
+	go func() { dp.Shutdown(); close(sd) }()
+	wedged := false
+	t1, t2 := 30*time.Second, 60*time.Second
+	if len(e.Violations) > nv { // already failed: do not spend the long confirmation time
+		t1, t2 = 3*time.Second, 3*time.Second
+	}
+	select {
+	case <-sd:
+	case <-time.After(t1):
+		select {
+		case <-sd:
+		case <-time.After(t2):
+			wedged = true
+		}
+	}
+	if wedged {
+		if len(e.Violations) == nv {
+			fail("pipeline-wedged", fmt.Sprintf("Shutdown does not return after 90 s: a stage is blocked (pool holds %d of %d buffers)", len(dp.PoolAudit()), poolSize))
+		}
+	} else if !bfdOn {
 		confirm(true)
 	} else if k, w := audit(true); k == "double-put" {
 		fail(k, w)
@@ -615,6 +649,7 @@ func runScenario(e *vlib.Env, idx int, r *vlib.Rand) {
 	}
 	o.mu.Unlock()
 	e.Case(fmt.Sprint("scenario ", idx, cfg.NumProcessors, cfg.NumSlowPathProcessors, cfg.BatchSize, bfdOn, rounds, nInj), "scenario", false)
+	return !wedged && len(e.Violations) == nv
 }
 
 func main() {
@@ -624,9 +659,13 @@ func main() {
 		"garbage, short packets, read errors; write side: full, partial, zero, failed and slow writes; then quiescence audit and Shutdown; " +
 		"non-trivial = an ownership observation at a socket; distinct by op line and by scenario"
 	n := e.N(40, 600)
+	ran := 0
 	for i := 0; i < n; i++ {
-		runScenario(e, i, vlib.CaseRand(e.Seed, i))
+		ran++
+		if !runScenario(e, i, vlib.CaseRand(e.Seed, i)) {
+			break
+		}
 	}
-	e.Extra["scenarios"] = n
+	e.Extra["scenarios"] = ran
 	e.Finish()
 }
